@@ -107,11 +107,16 @@ def run(ctx):
     # Leg E: the whole chain (real proxy -> real authenticator -> stateful identity provider), SSOLife.tla
     from checks import life
     ls = life.leg(ctx)
+    # Leg D (C01 only): the dispatch table of the proxy (ProxyDispatch.tla): whatever the spelling of the path, the method
+    # and the Host, nothing is forwarded without a session or a skip-auth pattern, and /oauth2/auth says 202 only for a session
+    dn = 0
+    if ctx.id == "C01":
+        dn = dispatch(ctx)
     for smp in ctx.cov["samples"]:
         for rec in (smp if isinstance(smp, list) else [smp]):
             if isinstance(rec, dict) and "conc" in rec and rec["conc"]:
                 rec["conc"].pop("cookie", None)
-    ctx.cov["evaluations"] = total_exec + hs["lines"] + pairs_lines + ls["lines"]
+    ctx.cov["evaluations"] = total_exec + hs["lines"] + pairs_lines + ls["lines"] + dn
     ctx.cov["distinct_nontrivial"] = min(distinct, nontrivial) + hs["distinct"]
     ctx.cov["exhaustive"] = (not quick)
     ctx.cov["exhaustive_scope"] = ("every abstract one-step cell executed" if not quick else "TLC model exhaustive; implementation cells sampled (%d of %d)" % (s["distinct"], kept))
@@ -126,10 +131,27 @@ def run(ctx):
     return V.finish(ctx, RULE_TEXT[ctx.id])
 
 
+DISPATCH_RULES = {"X03_NoForwardWithoutSessionOrSkip": "C01_Dispatch_NoForwardWithoutSessionOrSkip",
+                  "X03_AuthOnly202OnlyForSession": "C01_Dispatch_AuthOnly202OnlyForSession"}
+
+
+def dispatch(ctx):
+    from checks import xe
+    s, n, found, nl = xe.leg(ctx)
+    for rule, rec, text in found:
+        if rule in DISPATCH_RULES:
+            V.report(ctx, DISPATCH_RULES[rule], rec, text, {"kind": "dispatch", "record": rec})
+    ctx.cov["dispatch_cells"] = s["executed"]
+    return nl
+
+
 def replay(ctx, path):
     rp = json.load(open(path))
     rec = rp["record"]
     V.build_harness(ctx)
+    if rp["kind"] == "dispatch":
+        dispatch(ctx)
+        return V.finish(ctx, RULE_TEXT[ctx.id])
     if rp["kind"] == "life":
         from checks import life
         life.replay(ctx, rp)
